@@ -2,7 +2,7 @@
    Only final statements; every proof is one [exact].  The model is symbolic in the
    cryptography and concrete in the control flow of src/cms.c (see Pki/Cms.v). *)
 From Coq Require Import NArith List Bool.
-From GmVerif Require Import Pki.Cms Pki.CmsProofs.
+From GmVerif Require Import Pki.Cms Pki.CmsProofs Pki.X509Codec Pki.X509CodecProofs.
 Import ListNotations.
 Open Scope N_scope.
 
@@ -74,3 +74,27 @@ Theorem C16_sign_and_envelop_without_crls_refuted_legacy :
   forall signers rcpts key iv ct, cms_sign_and_envelop legacy signers rcpts key iv ct false = None.
 Proof. exact sign_and_envelop_without_crls_refuted_legacy. Qed.
 Print Assumptions C16_sign_and_envelop_without_crls_refuted_legacy.
+
+(* signer certificate / recipient info selection by (issuer, serial): x509_certs_get_cert_by_
+   issuer_and_serial_number and the match in cms_recipient_info_decrypt_from_der.  Found means the
+   first element whose issuer AND serial are byte-for-byte the wanted ones; an element whose serial
+   is a proper prefix or extension is passed over.  ([c_id] of Pki/Cms.v abstracts such a pair.) *)
+Theorem C16_lookup_by_issuer_serial_exact : forall A (l : list (keyed A)) issuer serial a,
+  find_by_issuer_serial l issuer serial = FHit a <->
+  exists pre post, l = pre ++ Some (issuer, serial, a) :: post /\
+    Forall (fun e => exists i s x, e = Some (i, s, x) /\ ~ (i = issuer /\ s = serial)) pre.
+Proof. exact find_by_issuer_serial_hit. Qed.
+Print Assumptions C16_lookup_by_issuer_serial_exact.
+
+Theorem C16_lookup_by_issuer_serial_none : forall A (l : list (keyed A)) issuer serial,
+  find_by_issuer_serial l issuer serial = FNone <->
+  Forall (fun e => exists i s x, e = Some (i, s, x) /\ ~ (i = issuer /\ s = serial)) l.
+Proof. exact find_by_issuer_serial_none. Qed.
+Print Assumptions C16_lookup_by_issuer_serial_none.
+
+Theorem C16_prefix_serial_is_skipped : forall A (l : list (keyed A)) issuer serial extra x,
+  extra <> [] ->
+  find_by_issuer_serial (Some (issuer, serial ++ extra, x) :: l) issuer serial = find_by_issuer_serial l issuer serial /\
+  find_by_issuer_serial (Some (issuer, serial, x) :: l) issuer (serial ++ extra) = find_by_issuer_serial l issuer (serial ++ extra).
+Proof. exact prefix_serial_is_skipped. Qed.
+Print Assumptions C16_prefix_serial_is_skipped.
